@@ -14,7 +14,7 @@
 
 use crate::errors::TermConversionError;
 use crate::types::{
-    Atom, BigInt, ExternalFun, ExternalPid, ExternalPort, ExternalReference, InternalFun, Mfa, Sign,
+    Atom, BigInt, ExternalFun, ExternalPid, ExternalPort, ExternalReference, InternalFun, Mfa,
 };
 use std::cmp::Ordering;
 use std::collections::{BTreeMap, HashMap};
@@ -2097,73 +2097,23 @@ impl Ord for OwnedTerm {
                     })
                 }
                 (OwnedTerm::Map(a), OwnedTerm::Map(b)) => a.len().cmp(&b.len()).then_with(|| {
-                    for ((k1, v1), (k2, v2)) in a.iter().zip(b.iter()) {
-                        match k1.cmp(k2) {
-                            Ordering::Equal => match v1.cmp(v2) {
-                                Ordering::Equal => continue,
-                                other => return other,
-                            },
-                            other => return other,
-                        }
-                    }
-                    Ordering::Equal
+                    // all keys first, then the values in key order
+                    a.keys()
+                        .cmp(b.keys())
+                        .then_with(|| a.values().cmp(b.values()))
                 }),
-                (OwnedTerm::Nil, OwnedTerm::Nil) => Ordering::Equal,
-                (OwnedTerm::List(a), OwnedTerm::List(b)) => {
-                    for (x, y) in a.iter().zip(b.iter()) {
-                        match x.cmp(y) {
-                            Ordering::Equal => continue,
-                            other => return other,
-                        }
-                    }
-                    a.len().cmp(&b.len())
-                }
-                (OwnedTerm::List(a), OwnedTerm::Nil) => {
-                    if a.is_empty() {
-                        Ordering::Equal
-                    } else {
-                        Ordering::Greater
-                    }
-                }
-                (OwnedTerm::Nil, OwnedTerm::List(b)) => {
-                    if b.is_empty() {
-                        Ordering::Equal
-                    } else {
-                        Ordering::Less
-                    }
-                }
                 (
-                    OwnedTerm::ImproperList {
-                        elements: a,
-                        tail: ta,
-                    },
-                    OwnedTerm::ImproperList {
-                        elements: b,
-                        tail: tb,
-                    },
+                    OwnedTerm::Nil | OwnedTerm::List(_) | OwnedTerm::ImproperList { .. },
+                    OwnedTerm::Nil | OwnedTerm::List(_) | OwnedTerm::ImproperList { .. },
+                ) => compare_list_terms(self, other),
+                (
+                    OwnedTerm::Binary(_) | OwnedTerm::String(_) | OwnedTerm::BitBinary { .. },
+                    OwnedTerm::Binary(_) | OwnedTerm::String(_) | OwnedTerm::BitBinary { .. },
                 ) => {
-                    for (x, y) in a.iter().zip(b.iter()) {
-                        match x.cmp(y) {
-                            Ordering::Equal => continue,
-                            other => return other,
-                        }
-                    }
-                    a.len().cmp(&b.len()).then_with(|| ta.cmp(tb))
+                    let (a, a_bits) = bit_string_view(self);
+                    let (b, b_bits) = bit_string_view(other);
+                    compare_bit_strings(a, a_bits, b, b_bits)
                 }
-                (OwnedTerm::Binary(a), OwnedTerm::Binary(b)) => a.cmp(b),
-                (OwnedTerm::String(a), OwnedTerm::String(b)) => a.cmp(b),
-                (OwnedTerm::Binary(a), OwnedTerm::String(b)) => a.as_slice().cmp(b.as_bytes()),
-                (OwnedTerm::String(a), OwnedTerm::Binary(b)) => a.as_bytes().cmp(b.as_slice()),
-                (
-                    OwnedTerm::BitBinary {
-                        bytes: a,
-                        bits: abits,
-                    },
-                    OwnedTerm::BitBinary {
-                        bytes: b,
-                        bits: bbits,
-                    },
-                ) => a.cmp(b).then_with(|| abits.cmp(bbits)),
                 _ => Ordering::Equal,
             },
             other => other,
@@ -2503,109 +2453,270 @@ impl OwnedTerm {
     }
 }
 
-fn compare_int_bigint(i: i64, big: &BigInt) -> Ordering {
-    if big.digits.is_empty() {
-        return i.cmp(&0);
-    }
+/// Magnitude digits (little-endian) without leading zero digits.
+fn significant_digits(digits: &[u8]) -> &[u8] {
+    let len = digits.iter().rposition(|&d| d != 0).map_or(0, |p| p + 1);
+    &digits[..len]
+}
 
-    if big.sign.is_negative() {
-        if i >= 0 {
-            return Ordering::Greater;
-        }
-        if big.digits.len() > 8 {
-            return Ordering::Greater;
-        }
-        let abs_i = i.wrapping_neg() as u64;
-        let big_val = bigint_to_u64(big);
-        abs_i.cmp(&big_val).reverse()
-    } else {
-        if i < 0 {
-            return Ordering::Less;
-        }
-        if big.digits.len() > 8 {
-            return Ordering::Less;
-        }
-        let abs_i = i as u64;
-        let big_val = bigint_to_u64(big);
-        abs_i.cmp(&big_val)
+/// Compares two little-endian magnitudes: digit count first, then from the most significant
+/// digit down. This is the numeric order for magnitudes without leading zero digits, which
+/// is what the wire format carries; a big integer with redundant leading zero digits sorts
+/// after every magnitude with fewer digits.
+fn compare_magnitudes(a: &[u8], b: &[u8]) -> Ordering {
+    a.len()
+        .cmp(&b.len())
+        .then_with(|| a.iter().rev().cmp(b.iter().rev()))
+}
+
+fn is_zero_magnitude(digits: &[u8]) -> bool {
+    digits.iter().all(|&d| d == 0)
+}
+
+fn compare_signed_magnitudes(a_neg: bool, a: &[u8], b_neg: bool, b: &[u8]) -> Ordering {
+    let a_neg = a_neg && !is_zero_magnitude(a);
+    let b_neg = b_neg && !is_zero_magnitude(b);
+    match (a_neg, b_neg) {
+        (false, true) => Ordering::Greater,
+        (true, false) => Ordering::Less,
+        (false, false) => compare_magnitudes(a, b),
+        (true, true) => compare_magnitudes(a, b).reverse(),
     }
 }
 
-fn compare_bigint_int(big: &BigInt, i: i64) -> Ordering {
+pub(crate) fn compare_int_bigint(i: i64, big: &BigInt) -> Ordering {
+    let magnitude = i.unsigned_abs().to_le_bytes();
+    compare_signed_magnitudes(
+        i < 0,
+        significant_digits(&magnitude),
+        big.sign.is_negative(),
+        &big.digits,
+    )
+}
+
+pub(crate) fn compare_bigint_int(big: &BigInt, i: i64) -> Ordering {
     compare_int_bigint(i, big).reverse()
 }
 
-fn compare_bigint(a: &BigInt, b: &BigInt) -> Ordering {
-    match (a.sign, b.sign) {
-        (Sign::Positive, Sign::Negative) => Ordering::Greater,
-        (Sign::Negative, Sign::Positive) => Ordering::Less,
-        (Sign::Positive, Sign::Positive) => a
-            .digits
-            .len()
-            .cmp(&b.digits.len())
-            .then_with(|| a.digits.cmp(&b.digits)),
-        (Sign::Negative, Sign::Negative) => a
-            .digits
-            .len()
-            .cmp(&b.digits.len())
-            .then_with(|| a.digits.cmp(&b.digits))
-            .reverse(),
-    }
+pub(crate) fn compare_bigint(a: &BigInt, b: &BigInt) -> Ordering {
+    compare_signed_magnitudes(
+        a.sign.is_negative(),
+        &a.digits,
+        b.sign.is_negative(),
+        &b.digits,
+    )
 }
 
-fn bigint_to_u64(big: &BigInt) -> u64 {
-    let mut result = 0u64;
-    for (i, &byte) in big.digits.iter().enumerate().take(8) {
-        result |= (byte as u64) << (i * 8);
-    }
-    result
-}
-
-fn compare_int_float(i: i64, f: f64) -> Ordering {
+/// Compares an integer given as sign and little-endian magnitude with a float, exactly
+/// (by mathematical value, without rounding the integer to the nearest float).
+fn compare_signed_magnitude_float(neg: bool, magnitude: &[u8], f: f64) -> Ordering {
     if f.is_nan() {
         return Ordering::Less;
     }
-    let i_as_f = i as f64;
-    i_as_f.partial_cmp(&f).unwrap_or(Ordering::Equal)
+    if f.is_infinite() {
+        return if f > 0.0 {
+            Ordering::Less
+        } else {
+            Ordering::Greater
+        };
+    }
+
+    let is_zero = is_zero_magnitude(magnitude);
+    let neg = neg && !is_zero;
+    let f_neg = f < 0.0;
+    if f == 0.0 {
+        return if is_zero {
+            Ordering::Equal
+        } else if neg {
+            Ordering::Less
+        } else {
+            Ordering::Greater
+        };
+    }
+    if is_zero {
+        return if f_neg {
+            Ordering::Greater
+        } else {
+            Ordering::Less
+        };
+    }
+    if neg != f_neg {
+        return if neg {
+            Ordering::Less
+        } else {
+            Ordering::Greater
+        };
+    }
+
+    // Same sign, both non-zero: |f| = mantissa * 2^exponent, compared against the magnitude.
+    let bits = f.to_bits();
+    let biased_exponent = ((bits >> 52) & 0x7ff) as i32;
+    let fraction = bits & ((1u64 << 52) - 1);
+    let (mantissa, exponent) = if biased_exponent == 0 {
+        (fraction, -1074)
+    } else {
+        (fraction | (1u64 << 52), biased_exponent - 1075)
+    };
+
+    let by_magnitude = if exponent >= 0 {
+        let shift_bytes = (exponent / 8) as usize;
+        let mut float_magnitude = vec![0u8; shift_bytes];
+        float_magnitude.extend_from_slice(&((mantissa as u128) << (exponent % 8)).to_le_bytes());
+        compare_magnitudes(magnitude, significant_digits(&float_magnitude))
+    } else {
+        let shift = (-exponent) as u32;
+        let (integer_part, has_fraction) = if shift >= 64 {
+            (0u64, true)
+        } else {
+            (mantissa >> shift, mantissa & ((1u64 << shift) - 1) != 0)
+        };
+        compare_magnitudes(
+            magnitude,
+            significant_digits(&integer_part.to_le_bytes()),
+        )
+        .then(if has_fraction {
+            Ordering::Less
+        } else {
+            Ordering::Equal
+        })
+    };
+
+    if neg {
+        by_magnitude.reverse()
+    } else {
+        by_magnitude
+    }
 }
 
-fn compare_float_int(f: f64, i: i64) -> Ordering {
+pub(crate) fn compare_int_float(i: i64, f: f64) -> Ordering {
+    compare_signed_magnitude_float(
+        i < 0,
+        significant_digits(&i.unsigned_abs().to_le_bytes()),
+        f,
+    )
+}
+
+pub(crate) fn compare_float_int(f: f64, i: i64) -> Ordering {
     compare_int_float(i, f).reverse()
 }
 
-fn compare_bigint_float(big: &BigInt, f: f64) -> Ordering {
-    if f.is_nan() {
-        return Ordering::Less;
-    }
-    let big_as_f = bigint_to_f64(big);
-    big_as_f.partial_cmp(&f).unwrap_or(Ordering::Equal)
+pub(crate) fn compare_bigint_float(big: &BigInt, f: f64) -> Ordering {
+    compare_signed_magnitude_float(big.sign.is_negative(), &big.digits, f)
 }
 
-fn compare_float_bigint(f: f64, big: &BigInt) -> Ordering {
+pub(crate) fn compare_float_bigint(f: f64, big: &BigInt) -> Ordering {
     compare_bigint_float(big, f).reverse()
 }
 
-fn bigint_to_f64(big: &BigInt) -> f64 {
-    let mut result = 0f64;
-    let mut scale = 1.0f64;
-
-    for &byte in big.digits.iter() {
-        let contribution = (byte as f64) * scale;
-        if contribution.is_infinite() || scale.is_infinite() {
-            return if big.sign.is_negative() {
-                f64::NEG_INFINITY
-            } else {
-                f64::INFINITY
-            };
+/// Compares two bit strings given as bytes plus the number of bits used in the last byte
+/// (8 for binaries): bit by bit, a proper prefix sorting first. Unused padding bits only
+/// break ties between otherwise identical bit strings.
+pub(crate) fn compare_bit_strings(a: &[u8], a_last_bits: u8, b: &[u8], b_last_bits: u8) -> Ordering {
+    fn bit_len(bytes: &[u8], last_bits: u8) -> usize {
+        if bytes.is_empty() {
+            0
+        } else {
+            (bytes.len() - 1) * 8 + last_bits.clamp(1, 8) as usize
         }
-        result += contribution;
-        scale *= 256.0;
     }
+    let (a_len, b_len) = (bit_len(a, a_last_bits), bit_len(b, b_last_bits));
+    let common = a_len.min(b_len);
+    let (full, rest) = (common / 8, common % 8);
+    a[..full]
+        .cmp(&b[..full])
+        .then_with(|| {
+            if rest == 0 {
+                Ordering::Equal
+            } else {
+                let mask = 0xffu8 << (8 - rest);
+                (a[full] & mask).cmp(&(b[full] & mask))
+            }
+        })
+        .then_with(|| a_len.cmp(&b_len))
+        .then_with(|| a.cmp(b))
+}
 
-    if big.sign.is_negative() {
-        -result
-    } else {
-        result
+fn bit_string_view(term: &OwnedTerm) -> (&[u8], u8) {
+    match term {
+        OwnedTerm::Binary(b) => (b, 8),
+        OwnedTerm::String(s) => (s.as_bytes(), 8),
+        OwnedTerm::BitBinary { bytes, bits } => (bytes, *bits),
+        _ => (&[], 8),
+    }
+}
+
+/// Elements and tail of a list-like term; `None` stands for the empty list.
+fn list_view(term: &OwnedTerm) -> (&[OwnedTerm], Option<&OwnedTerm>) {
+    match term {
+        OwnedTerm::List(elements) => (elements, None),
+        OwnedTerm::ImproperList { elements, tail } => (elements, Some(tail)),
+        _ => (&[], None),
+    }
+}
+
+fn is_list_term(term: &OwnedTerm) -> bool {
+    matches!(
+        term,
+        OwnedTerm::Nil | OwnedTerm::List(_) | OwnedTerm::ImproperList { .. }
+    )
+}
+
+/// Erlang's list order: element by element, then whatever is left (the empty list sorts
+/// before any non-empty list; an improper tail is compared as the term it is).
+fn compare_list_terms(a: &OwnedTerm, b: &OwnedTerm) -> Ordering {
+    let (mut a_elements, mut a_tail) = list_view(a);
+    let (mut b_elements, mut b_tail) = list_view(b);
+    loop {
+        // a tail that is itself a list continues the list
+        while a_elements.is_empty() {
+            match a_tail {
+                Some(tail) if is_list_term(tail) => (a_elements, a_tail) = list_view(tail),
+                _ => break,
+            }
+        }
+        while b_elements.is_empty() {
+            match b_tail {
+                Some(tail) if is_list_term(tail) => (b_elements, b_tail) = list_view(tail),
+                _ => break,
+            }
+        }
+        match (a_elements.split_first(), b_elements.split_first()) {
+            (Some((x, a_rest)), Some((y, b_rest))) => {
+                match x.cmp(y) {
+                    Ordering::Equal => {}
+                    other => return other,
+                }
+                a_elements = a_rest;
+                b_elements = b_rest;
+            }
+            // `b` still has cells: `a` is down to its tail, which is [] or a non-list term
+            (None, Some(_)) => {
+                return match a_tail {
+                    None => Ordering::Less,
+                    Some(tail) => term_type_order(tail).cmp(&term_type_order(&OwnedTerm::Nil)),
+                }
+                .then(Ordering::Less);
+            }
+            (Some(_), None) => {
+                return match b_tail {
+                    None => Ordering::Greater,
+                    Some(tail) => term_type_order(&OwnedTerm::Nil).cmp(&term_type_order(tail)),
+                }
+                .then(Ordering::Greater);
+            }
+            (None, None) => {
+                return match (a_tail, b_tail) {
+                    (None, None) => Ordering::Equal,
+                    (None, Some(tail)) => term_type_order(&OwnedTerm::Nil)
+                        .cmp(&term_type_order(tail))
+                        .then(Ordering::Less),
+                    (Some(tail), None) => term_type_order(tail)
+                        .cmp(&term_type_order(&OwnedTerm::Nil))
+                        .then(Ordering::Greater),
+                    (Some(x), Some(y)) => x.cmp(y),
+                };
+            }
+        }
     }
 }
 
